@@ -1225,10 +1225,16 @@ Section Canonical.
   Qed.
 
   (* ... and is constructed like it: keywords through aliases = the same keywords through the chain ends *)
-  Theorem alias_init_canonical_twin k sp st d default NAMES kwargs :
-    alias_init_model am k sp st d default NAMES kwargs = init_model k sp st d default NAMES (canon_kwargs ALIASES kwargs).
+  (* (when the constructor succeeds, i.e. no alias clashes with a variable / attribute: fix 4e03fd0) *)
+  Theorem alias_init_canonical_twin ca k sp st d default NAMES kwargs s u :
+    alias_init_model ca am k sp st d default NAMES kwargs = (s, Ret u) ->
+    init_model k sp st d default NAMES (canon_kwargs ALIASES kwargs) = (s, Ret u).
   Proof.
-    unfold gen_alias_init_model, resolve_kwargs, canon_kwargs. rewrite fold_ext_kwargs. reflexivity.
+    unfold gen_alias_init_model, resolve_kwargs, canon_kwargs. rewrite fold_ext_kwargs. intros H.
+    destruct (init_model k sp st d default NAMES
+                (fold_left (fun acc kv => assoc_set (chain_end ALIASES (fst kv)) (snd kv) acc) kwargs [])) as [s1 [u1|e]];
+      [|discriminate H].
+    destruct (alias_clash ca am s1); [discriminate H|exact H].
   Qed.
 
   (* reads through any name = reads of the chain end on the twin *)
@@ -1460,7 +1466,7 @@ Section StrictAlias.
 
   (* a name that resolves to no variable and no registered attribute cannot create anything under strict=True *)
   Theorem alias_strict_blocks_new_attributes am a value hint s :
-    strict s = true -> resolve am a <> "strict" ->
+    strict s = true -> is_property (kind s) (resolve am a) = false ->
     mem (resolve am a) (index s) = false -> reg_mem (resolve am a) (registry s) = false ->
     alias_step am (SetAttr a value hint) s =
       (s, Raise (match alternatives hint (row_names s) with _ :: _ :: _ => NotImplementedError | _ => AttributeError end)).
@@ -1640,3 +1646,213 @@ Theorem reentry_is_identity am s :
 Proof.
   intros H I x [Hx|Hx]; unfold resolve; apply aget_nonkey; apply H; [apply (row_names_incl s I); exact Hx|exact Hx].
 Qed.
+
+(* ================================================================== the constructor refuses clashing aliases (fix 4e03fd0) *)
+Lemma shorten_keys_nodup ALIASES a : NoDup (akeys ALIASES) -> shorten ALIASES = Ret a -> NoDup (akeys a).
+Proof.
+  intros ND H. unfold shorten in H.
+  destruct (shorten_loop (S (length (drop_self ALIASES))) (drop_self ALIASES)) as [a2|] eqn:L; [|discriminate].
+  inversion H; subst. apply shorten_loop_some in L as [U K].
+  rewrite (drop_self_unchained _ U), K. apply nodup_keys_filter. exact ND.
+Qed.
+
+Section Constructed.
+  Variable pycast : dtype -> pyval -> outcome pyval.
+  Variable arrcast : dtype -> dtype -> pyval -> outcome pyval.
+  Variable infer : list pyval -> dtype.
+  Variable astype_dt : dtype -> list pyval -> dreq -> dtype.
+  Variable itemseq_exn : dtype -> exn.
+  Notation init_model := (init_model pycast arrcast infer astype_dt).
+  Notation init_vars := (init_vars pycast arrcast infer astype_dt).
+  Notation base_add_variable := (base_add_variable pycast arrcast infer astype_dt).
+  Notation add_attribute := (add_attribute pycast arrcast infer).
+  Notation alias_init_model := (gen_alias_init_model pycast arrcast infer astype_dt).
+  Notation alias_run := (gen_alias_run pycast arrcast infer astype_dt itemseq_exn).
+
+  (* what a successfully constructed aliased object guarantees: it was built like the plain one, and no alias is the name of a
+     variable, of an entry of the object's __dict__ (attributes included) or of an attribute of the class *)
+  Theorem alias_init_no_clash ca am k sp st d default NAMES kwargs s u :
+    alias_init_model ca am k sp st d default NAMES kwargs = (s, Ret u) ->
+    init_model k sp st d default NAMES (resolve_kwargs am kwargs) = (s, Ret u) /\
+    forall a, In a (akeys (amap am)) -> ~ In a (index s) /\ assoc a (adict s) = None /\ ~ In a ca.
+  Proof.
+    unfold gen_alias_init_model. intros H.
+    destruct (init_model k sp st d default NAMES (resolve_kwargs am kwargs)) as [s1 [u1|e]]; [|discriminate H].
+    destruct (alias_clash ca am s1) eqn:C; [discriminate H|]. inversion H; subst. split; [reflexivity|].
+    intros a Ha. unfold alias_clash in C.
+    assert (F : (mem a (index s) || dict_key s a || mem a ca)%bool = false).
+    { destruct (mem a (index s) || dict_key s a || mem a ca)%bool eqn:E; [|reflexivity].
+      assert (T : existsb (fun k0 => (mem k0 (index s) || dict_key s k0 || mem k0 ca)%bool) (akeys (amap am)) = true)
+        by (apply existsb_exists; exists a; split; assumption).
+      congruence. }
+    apply orb_false_iff in F as [F F3]. apply orb_false_iff in F as [F1 F2].
+    split; [apply mem_false; exact F1|]. split; [|apply mem_false; exact F3].
+    unfold dict_key in F2. repeat (apply orb_false_iff in F2 as [F2 ?]).
+    destruct (assoc a (adict s)); [discriminate|reflexivity].
+  Qed.
+
+  (* ... and the clash is what raises: a declared alias that is a variable of the model is refused *)
+  Theorem alias_named_like_variable_rejected ca am k sp st d default NAMES kwargs s u a :
+    init_model k sp st d default NAMES (resolve_kwargs am kwargs) = (s, Ret u) ->
+    In a (akeys (amap am)) -> In a (index s) ->
+    alias_init_model ca am k sp st d default NAMES kwargs = (s, Raise InitialisationError).
+  Proof.
+    intros H Ha Hi. unfold gen_alias_init_model. rewrite H.
+    assert (C : alias_clash ca am s = true).
+    { unfold alias_clash. apply existsb_exists. exists a. split; [exact Ha|]. rewrite (proj2 (mem_In _ _) Hi). reflexivity. }
+    rewrite C. reflexivity.
+  Qed.
+
+  Theorem alias_named_like_attribute_rejected ca am k sp st d default NAMES kwargs s u a :
+    init_model k sp st d default NAMES (resolve_kwargs am kwargs) = (s, Ret u) ->
+    In a (akeys (amap am)) -> assoc a (adict s) <> None ->
+    alias_init_model ca am k sp st d default NAMES kwargs = (s, Raise InitialisationError).
+  Proof.
+    intros H Ha Hd. unfold gen_alias_init_model. rewrite H.
+    assert (C : alias_clash ca am s = true).
+    { unfold alias_clash. apply existsb_exists. exists a. split; [exact Ha|]. unfold dict_key.
+      destruct (assoc a (adict s)); [|contradiction]. rewrite !orb_true_r. reflexivity. }
+    rewrite C. reflexivity.
+  Qed.
+
+  (* the index of a constructed model: the two solution-tracking series, then NAMES *)
+  Lemma init_vars_index nms ivs default d : forall s s' u,
+    init_vars nms ivs default d s = (s', Ret u) -> index s' = index s ++ nms.
+  Proof.
+    induction nms as [|x nms IH]; intros s s' u H; simpl in H; [inversion H; rewrite app_nil_r; reflexivity|].
+    destruct (base_add_variable x (match assoc x ivs with Some v => v | None => default end) (Some d) s) as [s1 [u1|e]] eqn:B; [|discriminate H].
+    apply (base_add_variable_ret pycast arrcast infer astype_dt) in B as [BI _].
+    rewrite (IH _ _ _ H), BI, <- app_assoc. reflexivity.
+  Qed.
+
+  Theorem init_model_index k sp st d default NAMES ivs s u :
+    init_model k sp st d default NAMES ivs = (s, Ret u) -> index s = "status" :: "iterations" :: NAMES.
+  Proof.
+    intros H. unfold Container.init_model in H.
+    apply bind_ret in H as (s1 & u1 & H1 & H).
+    apply bind_ret in H as (s2 & u2 & H2 & H).
+    apply bind_ret in H as (s3 & u3 & H3 & H).
+    destruct (negb (dup_free NAMES)); [inversion H|].
+    match type of H with context [if ?c then _ else _] => destruct c end; [inversion H|].
+    apply bind_ret in H as (s4 & u4 & H4 & H).
+    apply bind_ret in H as (s5 & u5 & H5 & H).
+    apply bind_ret in H as (s6 & u6 & H6 & H).
+    apply bind_ret in H as (s7 & u7 & H7 & H).
+    apply bind_ret in H as (s8 & u8 & H8 & H).
+    apply bind_ret in H as (s9 & u9 & H9 & H).
+    assert (I1 : index s1 = []).
+    { pose proof (add_attribute_dtype_meta pycast arrcast infer (dreq_operand d)
+                    (mkState sp [] [] core_registry [] st k [] None)) as M. rewrite H1 in M. simpl fst in M. exact (proj1 (proj2 M)). }
+    apply (base_add_variable_ret pycast arrcast infer astype_dt) in H2 as [I2 _]. simpl in I2.
+    apply (base_add_variable_ret pycast arrcast infer astype_dt) in H3 as [I3 _].
+    assert (I4 : index s4 = index s3).
+    { pose proof (add_attribute_names_meta pycast arrcast infer (OSeq KList (map (fun x => OScalar (PStr x)) NAMES)) s3) as M.
+      rewrite H4 in M. simpl fst in M. exact (proj1 (proj2 M)). }
+    apply init_vars_index in H5. simpl in H5.
+    assert (KA : forall nm v sa sb ub, (forall k0, bookkeeping k0 nm = false) ->
+                 add_attribute nm v sa = (sb, Ret ub) -> index sb = index sa).
+    { intros nm v sa sb ub B E. pose proof (proj1 (add_attribute_ki pycast arrcast infer nm v sa (B _))) as N. rewrite E in N. exact N. }
+    assert (BK : forall nm, nm = "lags" \/ nm = "leads" \/ nm = "endogenous" \/ nm = "check" \/ nm = "engine" -> forall k0, bookkeeping k0 nm = false).
+    { intros nm [->|[->|[->|[->| ->]]]] k0; destruct k0; reflexivity. }
+    assert (I9 : index s9 = "status" :: "iterations" :: NAMES).
+    { rewrite (KA _ _ _ _ _ (BK _ (or_intror (or_intror (or_intror (or_introl eq_refl))))) H9),
+              (KA _ _ _ _ _ (BK _ (or_intror (or_intror (or_introl eq_refl)))) H8),
+              (KA _ _ _ _ _ (BK _ (or_intror (or_introl eq_refl))) H7),
+              (KA _ _ _ _ _ (BK _ (or_introl eq_refl)) H6), H5, I4, I3, I2, I1. reflexivity. }
+    destruct k; [inversion H; subst; exact I9
+                |rewrite (KA _ _ _ _ _ (BK _ (or_intror (or_intror (or_intror (or_intror eq_refl))))) H); exact I9
+                |inversion H; subst; exact I9].
+  Qed.
+
+  Lemma init_model_kind k sp st d default NAMES ivs s u :
+    init_model k sp st d default NAMES ivs = (s, Ret u) -> kind s = k.
+  Proof.
+    intros H. unfold Container.init_model in H.
+    apply bind_ret in H as (s1 & u1 & H1 & H).
+    apply bind_ret in H as (s2 & u2 & H2 & H).
+    apply bind_ret in H as (s3 & u3 & H3 & H).
+    destruct (negb (dup_free NAMES)); [inversion H|].
+    match type of H with context [if ?c then _ else _] => destruct c end; [inversion H|].
+    apply bind_ret in H as (s4 & u4 & H4 & H).
+    apply bind_ret in H as (s5 & u5 & H5 & H).
+    apply bind_ret in H as (s6 & u6 & H6 & H).
+    apply bind_ret in H as (s7 & u7 & H7 & H).
+    apply bind_ret in H as (s8 & u8 & H8 & H).
+    apply bind_ret in H as (s9 & u9 & H9 & H).
+    assert (K1 : kind s1 = k).
+    { pose proof (add_attribute_dtype_meta pycast arrcast infer (dreq_operand d)
+                    (mkState sp [] [] core_registry [] st k [] None)) as M. rewrite H1 in M. simpl fst in M. exact (proj1 (proj2 (proj2 (proj2 M)))). }
+    assert (GB : forall nm v dt sa sb ub, base_add_variable nm v dt sa = (sb, Ret ub) -> kind sb = kind sa).
+    { intros nm v dt sa sb ub E. pose proof (base_add_variable_good pycast arrcast infer astype_dt nm v dt sa) as G. rewrite E in G.
+      exact (proj2 (good_span _ _ G)). }
+    assert (K3 : kind s3 = k) by (rewrite (GB _ _ _ _ _ _ H3), (GB _ _ _ _ _ _ H2); exact K1).
+    assert (K4 : kind s4 = k).
+    { pose proof (add_attribute_names_meta pycast arrcast infer (OSeq KList (map (fun x => OScalar (PStr x)) NAMES)) s3) as M.
+      rewrite H4 in M. simpl fst in M. rewrite (proj2 (proj2 (proj2 M))). exact K3. }
+    assert (K5 : kind s5 = k).
+    { pose proof (init_vars_good pycast arrcast infer astype_dt NAMES ivs default d (set_names s4 NAMES)) as G. rewrite H5 in G.
+      simpl fst in G. rewrite (proj2 (good_span _ _ G)). exact K4. }
+    assert (GA : forall nm v sa sb ub, (forall k0, bookkeeping k0 nm = false) -> add_attribute nm v sa = (sb, Ret ub) -> kind sb = kind sa).
+    { intros nm v sa sb ub B E. pose proof (add_attribute_good pycast arrcast infer nm v sa (B _)) as G. rewrite E in G.
+      exact (proj2 (good_span _ _ G)). }
+    assert (BK : forall nm, nm = "lags" \/ nm = "leads" \/ nm = "endogenous" \/ nm = "check" \/ nm = "engine" -> forall k0, bookkeeping k0 nm = false).
+    { intros nm [->|[->|[->|[->| ->]]]] k0; destruct k0; reflexivity. }
+    assert (K9 : kind s9 = k).
+    { rewrite (GA _ _ _ _ _ (BK _ (or_intror (or_intror (or_intror (or_introl eq_refl))))) H9),
+              (GA _ _ _ _ _ (BK _ (or_intror (or_intror (or_introl eq_refl)))) H8),
+              (GA _ _ _ _ _ (BK _ (or_intror (or_introl eq_refl))) H7),
+              (GA _ _ _ _ _ (BK _ (or_introl eq_refl)) H6). exact K5. }
+    destruct k; [inversion H; subst; exact K9
+                |rewrite (GA _ _ _ _ _ (BK _ (or_intror (or_intror (or_intror (or_intror eq_refl))))) H); exact K9
+                |inversion H; subst; exact K9].
+  Qed.
+
+  (* EXPORT ONLY RENAMES, without any assumption about names: for an object that the constructor accepted (acyclic or not: whatever
+     alias_construct returned) and ANY in-scope history that does not add_variable an alias name (the one door the constructor cannot
+     close: see add_variable_alias_name_refuted in AliasExamples.v), every selection of columns is exported with its own data, in
+     order, under pairwise different titles, each the column's name or one of its aliases *)
+  Theorem export_only_renames_constructed ALIASES PREFERRED ca am k sp st d default NAMES kwargs s0 u ops :
+    k <> CVC -> NoDup (akeys ALIASES) ->
+    alias_construct ALIASES PREFERRED = Ret am ->
+    alias_init_model ca am k sp st d default NAMES kwargs = (s0, Ret u) ->
+    Forall (in_scope (kind s0)) (map (resolve_op am) ops) ->
+    (forall a v dt, In a (akeys (amap am)) -> ~ In (AddVariable a v dt) ops) ->
+    forall fs fi fincl,
+    let s := alias_run am ops s0 in
+    NoDup (base_columns_with fs fi fincl s) ->
+    exists l, export_with am fs fi fincl s = Ret l /\
+      map snd l = base_columns_with fs fi fincl s /\
+      NoDup (map fst l) /\
+      Forall2 (fun c t => t = c \/ In (t, c) (amap am)) (base_columns_with fs fi fincl s) (map fst l).
+  Proof.
+    intros KN ND CON INIT SC NA fs fi fincl s NDC.
+    destruct (alias_construct_wf _ _ _ CON) as [W _].
+    assert (NDK : NoDup (akeys (amap am))).
+    { unfold alias_construct in CON. destruct (shorten ALIASES) as [a|] eqn:S; [|discriminate].
+      destruct (pref_check a PREFERRED []) as [[]|]; [|discriminate]. inversion CON; subst. simpl.
+      eapply shorten_keys_nodup; eassumption. }
+    destruct (alias_init_no_clash _ _ _ _ _ _ _ _ _ _ _ INIT) as [INIT0 NC].
+    pose proof (inv_init_model pycast arrcast infer astype_dt _ _ _ _ _ _ _ _ _ KN INIT0) as I0.
+    pose proof (init_model_index _ _ _ _ _ _ _ _ _ INIT0) as IX0.
+    assert (Is : Inv s) by (apply alias_run_inv; assumption).
+    assert (KS : kind s <> CVC).
+    { unfold s. rewrite alias_run_twin, (proj2 (span_kept pycast arrcast infer astype_dt itemseq_exn _ _ SC)),
+        (init_model_kind _ _ _ _ _ _ _ _ _ INIT0). exact KN. }
+    apply (export_cols_rename_only am W NDK); [exact NDC|].
+    intros c Hc Ha.
+    assert (Hi : In c (index s)).
+    { unfold base_columns_with in Hc. apply in_app_iff in Hc as [Hc|Hc].
+      - apply (proj2 Is KS). destruct fincl; [exact Hc|apply filter_In in Hc as [Hc _]; exact Hc].
+      - assert (S0 : In c (index s0)).
+        { rewrite IX0. apply in_app_iff in Hc as [Hc|Hc].
+          - destruct fs; [destruct Hc as [<-|[]]; left; reflexivity|contradiction].
+          - destruct fi; [destruct Hc as [<-|[]]; right; left; reflexivity|contradiction]. }
+        unfold s. rewrite alias_run_twin.
+        apply (proj1 (good_mono _ _ (run_good pycast arrcast infer astype_dt itemseq_exn _ _ SC))). exact S0. }
+    unfold s in Hi. rewrite alias_run_twin in Hi.
+    apply (run_index pycast arrcast infer astype_dt itemseq_exn _ _ _ SC) in Hi as [Hi|[v [dt Hi]]].
+    - exact (proj1 (NC c Ha) Hi).
+    - apply in_map_iff in Hi as [o [E Hin]]. destruct o; simpl in E; try discriminate. inversion E; subst.
+      exact (NA _ _ _ Ha Hin).
+  Qed.
+End Constructed.
